@@ -757,6 +757,11 @@ fn run_rustc(queue: &[(String, String, String)], st: &mut Stats, fails: &mut Vec
                                 continue;
                             }
                         }
+                        if st.rustc_baseline_broken == 0 {
+                            if let Ok(p) = std::env::var("C10_DUMP_BASELINE") {
+                                let _ = std::fs::write(&p, format!("// {input}\n{full}"));
+                            }
+                        }
                         if st.rustc_baseline_broken < 2 {
                             eprintln!("baseline does not compile: {}", fe.lines().filter(|l| l.starts_with("error")).take(3).collect::<Vec<_>>().join(" | "));
                         }
